@@ -352,6 +352,8 @@ def analyse(ck, prog=None):
                 bv = P.norm(bv)
                 good = (i is not None and lc.is_var(j, 0, 4) and isinstance(bv, tuple) and bv[0] == "idx" and bv[2] == j and block_of(bv[1]) == i
                         and isinstance(keep, tuple) and keep[0] == "idx" and keep[2] == j)
+                # the write happens for every (slot, limb): its only control context is the enclosing loops
+                good = good and all(g[0] == "loop" for c in T.upd_write_ctrl(v.ev, t3) for g in c) and bool(T.upd_write_ctrl(v.ev, t3))
         ob.add({"C06", "C09"}, good, "TERM", "pb/first-real/block-hash", "block_ref[j] = {zero, select(take_i, block_hashes[i][j], block_ref[j])} for j in 0..4; emitted as 4 felts at output[3..7]", loc(e3), T.show(t3, maxdepth=6)[:500])
         block_ref = t3
         k4, t4, e4 = items[4]
